@@ -4,8 +4,8 @@
 (*                                                                                                          *)
 (* Strict mode (environment STRICT=1): an event the contract does not allow leaves the specification        *)
 (* stuck and the POSTCONDITION fails.  Diagnostic mode (default): the event is reported as                  *)
-(*   <<"REJ", line, event, reasons>>  and validation resumes at the next execution, so that one run finds   *)
-(* every rejected execution of a file.  Each execution is Reset ... End; a missing End (crash) is rejected. *)
+(*   <<"REJ", line, event, ToString(reasons)>>  and validation resumes at the next execution (or, for section names,  *)
+(* at the next event), so that one run finds every rejected execution of a file.  Each execution is Reset ... End; a missing End (crash) is rejected. *)
 EXTENDS Layout, TraceLib
 
 VARIABLES l,      \* next line of the trace
@@ -25,15 +25,19 @@ TInit == LInit /\ l = 1 /\ open = FALSE /\ InitProgress
 
 Accept == l' = l + 1
 Reject(why) == /\ ~Strict
-               /\ PrintT(<<"REJ", l, Ev.e, why>>)
+               /\ PrintT(<<"REJ", l, Ev.e, ToString(why)>>)
                /\ l' = NextReset(l + 1)
                /\ open' = FALSE
                /\ UNCHANGED lvars
 
+(* Name storage / lookup results do not influence the layout: they are reported and the execution goes on, *)
+(* so that a name defect does not hide the layout checks of the same execution (strict mode: stuck).       *)
+Soft(why) == ~Strict /\ PrintT(<<"REJ", l, Ev.e, ToString(why)>>)
+
 (* one event: contract allows it -> effect, else reject *)
 TReset == /\ l <= N /\ Ev.e = "Reset"
           /\ IF open THEN Reject({"execution-cut-short"})
-             ELSE /\ secs' = << [NewSec(Ev.text.order, Ev.text.align) EXCEPT !.off = Ev.text.off] >>
+             ELSE /\ secs' = << [NewSec(Ev.text.name, Ev.text.order, Ev.text.align) EXCEPT !.off = Ev.text.off] >>
                   /\ phase' = "build" /\ est' = {} /\ atid' = 0
                   /\ open' = TRUE /\ Accept
 
@@ -41,8 +45,14 @@ TEnd == /\ l <= N /\ Ev.e = "End" /\ open
         /\ open' = FALSE /\ Accept /\ UNCHANGED lvars
 
 TNew == /\ l <= N /\ Ev.e = "New" /\ open
-        /\ LET why == NewSectionWhy(Ev.nlen, Ev.order, Ev.align, Ev.r, Ev.id, Ev.count) IN
-           IF why = {} THEN NewSectionEffect(Ev.order, Ev.align, Ev.r) /\ Accept /\ UNCHANGED open ELSE Reject(why)
+        /\ LET why == NewSectionWhy(Ev.name, Ev.nlen, Ev.order, Ev.align, Ev.r, Ev.id, Ev.count, Ev.rname) IN
+           IF why \subseteq {"name-not-stored"}
+             THEN (IF why = {} THEN TRUE ELSE Soft(why)) /\ NewSectionEffect(Ev.name, Ev.order, Ev.align, Ev.r) /\ Accept /\ UNCHANGED open
+             ELSE Reject(why)
+
+TLookup == /\ l <= N /\ Ev.e = "Lookup" /\ open
+           /\ LET why == LookupWhy(Ev.name, Ev.id) IN
+              (IF why = {} THEN TRUE ELSE Soft(why)) /\ Accept /\ UNCHANGED <<secs, phase, est, atid, open>>
 
 TEmbed == /\ l <= N /\ Ev.e = "Embed" /\ open
           /\ LET why == EmbedWhy(Idx(Ev.id), Ev.rle, Ev.buf) \cup (IF Ev.r = "Ok" /\ RleWf(Ev.rle) THEN {} ELSE {"embed-failed"}) IN
@@ -85,7 +95,7 @@ TReloc == /\ l <= N /\ Ev.e = "Reloc" /\ open
              ELSE LET why == RelocWhy(Ev.secs) IN
                   IF why = {} THEN RelocEffect(Ev.secs) /\ Accept /\ UNCHANGED open ELSE Reject(why)
 
-Known == {"Reset", "End", "New", "Embed", "VSize", "Far", "Note", "Flatten", "Flatten2", "CodeSize", "Copy", "CopySec", "Reloc"}
+Known == {"Reset", "End", "New", "Lookup", "Embed", "VSize", "Far", "Note", "Flatten", "Flatten2", "CodeSize", "Copy", "CopySec", "Reloc"}
 (* ABORT lines, unknown events, events outside an execution *)
 TOther == /\ l <= N
           /\ (Ev.e \notin Known \/ (~open /\ Ev.e # "Reset"))
@@ -93,10 +103,10 @@ TOther == /\ l <= N
 (* the file ends inside an execution *)
 TCut == /\ l = N + 1 /\ open
         /\ ~Strict
-        /\ PrintT(<<"REJ", N, "EOF", {"execution-cut-short"}>>)
+        /\ PrintT(<<"REJ", N, "EOF", ToString({"execution-cut-short"})>>)
         /\ open' = FALSE /\ UNCHANGED <<secs, phase, est, atid, l>>
 
-TNext == TReset \/ TEnd \/ TNew \/ TEmbed \/ TVSize \/ TFar \/ TNote \/ TFlatten \/ TFlatten2 \/ TCodeSize
+TNext == TReset \/ TEnd \/ TNew \/ TLookup \/ TEmbed \/ TVSize \/ TFar \/ TNote \/ TFlatten \/ TFlatten2 \/ TCodeSize
          \/ TCopy \/ TCopySec \/ TReloc \/ TOther \/ TCut
 TSpec == TInit /\ [][TNext]_tvars
 
